@@ -19,7 +19,7 @@ func init() {
 		ID: "C05",
 		Meta: func(tier string) fw.Meta {
 			return fw.Meta{
-				Flavours: []string{"plain", "cover"},
+				Flavours: []string{"plain", "cover", "386"},
 				Blocks:   16,
 				Procs:    16,
 				Rule: "case = history of Add/Pop/Remove(i)/Set/Reorder/Clear/NewWithData (60-400 ops, keys with many duplicates, three comparison orders, sizes across >= 4 heap levels) followed by a full drain; every history is executed twice: as is, and with the verif hook substituting (i-1)/2 as the parent in pushUp (counterfactual). " +
@@ -318,7 +318,7 @@ func runC05(c *fw.Ctx) {
 				vs[i] = Elem{Key: y % 4, Tag: i + 1}
 				y /= 4
 			}
-			c05sort(c, vs, x%5)
+			c05sort(c, vs, x%8)
 			c.SeenEnum(1)
 		}
 	}
@@ -343,7 +343,7 @@ func runC05(c *fw.Ctx) {
 		for i := range vs {
 			vs[i] = Elem{Key: r.IntN(kr), Tag: i + 1}
 		}
-		c05sort(c, vs, r.IntN(5))
+		c05sort(c, vs, r.IntN(8))
 	}
 }
 
